@@ -17,7 +17,7 @@
    excluded situation (C04_rollback_exact_refuted_pending).  [guard pol p] adds a syntactic condition for the Lazy
    policy only (g1: a catch block followed by a finally block makes no un-layered call — finding F13, repaired);
    for Eager it is [true]. *)
-From NG Require Import Common.Tactics Exec.CallTree Exec.Spec Exec.CallTreeFrame Exec.CallTreeProofs Exec.CallTreeWitness Exec.BlockProofs.
+From NG Require Import Common.Tactics Exec.CallTree Exec.Spec Exec.CallTreeFrame Exec.CallTreeProofs Exec.CallTreeWitness Exec.BlockProofs Exec.HandlerProofs.
 Open Scope N_scope.
 
 (* tx_atomic, fault half — for ALL call trees, both policies, any base state, sender and fee: a transaction that does
@@ -149,6 +149,32 @@ Theorem C04_block_position_independent : forall pol ps1 base p ps2,
 Proof. exact seq_txs_skip_faulted. Qed.
 Print Assumptions C04_block_position_independent.
 
+(* ContractHasTryBlock's specification.  hs = the handlers of ALL contexts of the calling contract invocation with their
+   states, innermost first; has_try = the predicate's walk, will_stop = handleException's walk (it pops handlers that are
+   in their finally block or in a catch block without finally, and stops at the first one still in try, or in catch with
+   a finally block).  A callee gets its own layer iff an exception thrown by it would be stopped by SOME handler of the
+   calling invocation (and its effective flags allow writes or notifications) — whichever handler is innermost *)
+Theorem C04_layer_iff_some_handler_will_catch : forall hs fl,
+  wrapped (has_try Eager hs) fl = true <-> will_stop hs = true /\ ro fl = false.
+Proof. exact layer_iff_some_handler_will_catch. Qed.
+Print Assumptions C04_layer_iff_some_handler_will_catch.
+
+Theorem C04_dead_handlers_do_not_matter : forall inner outer,
+  forallb dead inner = true -> will_stop (inner ++ outer) = will_stop outer.
+Proof. exact dead_handlers_do_not_matter. Qed.
+Print Assumptions C04_dead_handlers_do_not_matter.
+
+Theorem C04_live_handler_anywhere_decides : forall a h b, dead h = false -> will_stop (a ++ h :: b) = true.
+Proof. exact live_handler_anywhere. Qed.
+Print Assumptions C04_live_handler_anywhere_decides.
+
+(* the machine that carries the handler stack explicitly (TRY pushes a handler, its state follows the block that runs,
+   a callee starts with none, the layering decision walks the whole stack) is the machine of all theorems above *)
+Theorem C04_handler_stack_machine : forall pol p cid fl hs s,
+  exec_h pol p cid fl hs s = exec pol p cid fl (has_try pol hs) s.
+Proof. exact exec_h_exec. Qed.
+Print Assumptions C04_handler_stack_machine.
+
 (* non-vacuity *)
 Example C04_example_guarded_tree :
   guard Lazy ex1 = true /\ guard Eager ex1 = true /\ g2 ex1 = false /\
@@ -201,3 +227,10 @@ Example C04_example_block :
   apply_block Lazy base0 [(5, 3, pend); (6, 4, later)] = seq_txs Lazy (charge 6 4 (charge 5 3 base0)) [pend; later] /\
   lookup (1, 0) (lst (fst (apply_block Lazy base0 [(5, 3, pend); (6, 4, later)]))) = Some 5.
 Proof. exact block_example. Qed.
+Example C04_example_lazy_misses_catch_with_finally : has_try Lazy [HCatch true] = false /\ will_stop [HCatch true] = true.
+Proof. exact has_try_lazy_misses. Qed.
+Example C04_example_nested_finally_call :
+  let m := run_tx Eager (mkL [] (Some 1000) (Some 0)) nested_finally_call in
+  halted m = true /\ clean m = true /\ events m = [EvN 0 9] /\
+  lookup (0, 0) (lst (after m)) = Some 1 /\ lookup (0, 1) (lst (after m)) = Some 1 /\ lookup (1, 0) (lst (after m)) = None.
+Proof. exact nested_finally_call_runs. Qed.
